@@ -150,7 +150,28 @@ def run(eng: Engine, ck: Check):
         stt = enclosing_stmt(x)
         owner = unparse(stt.targets[0].value) if isinstance(stt, ast.Assign) and isinstance(stt.targets[0], ast.Attribute) and stt.targets[0].attr == 'timer' else None
         ok = cbk is not None and owner is not None and pat.match(cbk, pat.compile_pattern(f'partial(self._timeout_search_request, {owner})')[0]) is not None
-        ck.ob('R-C18-TIMER', f, x, 'the timer removes exactly the request it was created for', ok, unparse(cbk), construct=f'{f.name} timer callback')
+        why = unparse(cbk) if cbk is not None else 'no callback'
+        if not ok and isinstance(cbk, ast.Lambda) and owner is not None and not (cbk.args.kwonlyargs or cbk.args.vararg or cbk.args.kwarg) and \
+                len(cbk.args.defaults) == len(cbk.args.args) and cbk.args.args:
+            # every parameter has a default: called without arguments (Timer.runner does) the defaults are what it uses, and defaults are evaluated
+            # when the lambda is CREATED -- the eager idiom.  Judge the body with the defaults substituted.
+            dmap = {a_.arg: d_ for a_, d_ in zip(cbk.args.args, cbk.args.defaults)}
+
+            class _S(ast.NodeTransformer):
+                def visit_Name(self, n_):
+                    return ast.parse(unparse(dmap[n_.id]), mode='eval').body if isinstance(n_.ctx, ast.Load) and n_.id in dmap else n_
+            body_ = unparse(_S().visit(ast.parse(unparse(cbk.body), mode='eval').body))
+            ok = body_ == f'self._timeout_search_request({owner})'
+            why = '' if ok else f'with its defaults the callback runs `{body_}`'
+        elif not ok and isinstance(cbk, ast.Lambda) and owner is not None and not (cbk.args.args or cbk.args.kwonlyargs or cbk.args.vararg or cbk.args.kwarg) and \
+                unparse(cbk.body) in (f'self._timeout_search_request({owner})',):
+            # a closure names the same request -- provided it reads the variable it was created with: inside a loop that re-binds the name it
+            # reads the LAST request of the round when it runs (partial binds the object at creation)
+            loops_ = [a_ for a_ in ancestors(x) if isinstance(a_, (ast.For, ast.AsyncFor, ast.While))]
+            rebound = any(isinstance(n_, ast.Name) and n_.id == owner and isinstance(n_.ctx, ast.Store) for lp_ in loops_ for n_ in ast.walk(lp_))
+            ok = not rebound
+            why = f'`{unparse(cbk)}` is created in a loop that re-binds `{owner}`: every timer of the round removes the last request of the round, the others stay registered for ever' if rebound else ''
+        ck.ob('R-C18-TIMER', f, x, 'the timer removes exactly the request it was created for', ok, why, construct=f'{f.name} timer callback')
         starts = [y for y in calls_on(f.node, 'start') if 'timer' in unparse(y.func.value)]
         ck.ob('R-C18-TIMER', f, x, 'a created timer is started', len(starts) == 1, '', construct=f'{f.name} timer started')
     at = eng.func(SEARCH, 'SearchManager._attach_request_timer_and_emit')
